@@ -90,15 +90,15 @@ CHECKS = {
         "emitted WHERE clause runs on sqlite3 and the selected ids are compared, row by row, with a reference "
         "evaluator written from the OData specification. Rows on which strict OData null semantics and SQL "
         "propagation differ, or where the spec leaves the value open (inexact integer division, division by "
-        "zero, negative mod), are undecided and skipped; an exhaustive operator-pair sweep runs in both tiers.",
+        "zero), are undecided and skipped; an exhaustive operator-pair sweep runs in both tiers; every case is followed by metamorphic companions in which one row's integer values replace the Int columns (that row must fare alike).",
         "Trusts vp/evalref.py and Python's sqlite3; LIKE case sensitivity and the datetime storage format are stated preconditions.",
         "DESIGN.md §6 C01",
     ),
     "C02": (
-        "Hypothesis typed-grammar generation of filters x adversarial rows, executed through the Django ORM on SQLite; differential oracle against the reference evaluator",
+        "Hypothesis typed-grammar generation of filters x adversarial rows, executed through the Django ORM on SQLite; differential oracle against the reference evaluator + metamorphic literal-versus-column relations (per-case companions, exhaustive operator x operand sweep)",
         "As C01 for the Django fragment: generated filters and rows go through apply_odata_query on an in-memory "
         "SQLite database created with the schema editor; returned ids are compared row by row with the reference "
-        "evaluator on decided rows; refusals and foreign exceptions on fragment filters are violations.",
+        "evaluator on decided rows; refusals and foreign exceptions on fragment filters are violations. Each case is followed by companions in which one row's integer values replace the Int columns (that row must fare alike), and an exhaustive sweep compares column and all-literal forms of every arithmetic operator over small operands of either sign.",
         "Trusts vp/evalref.py; SQLite is the only engine; bare boolean columns as predicates are outside the Django fragment (the backend refuses them on purpose).",
         "DESIGN.md §6 C02",
     ),
@@ -144,7 +144,7 @@ CHECKS = {
         "at the ABNF's BWS positions, random keyword case and case-mangled literal designators (T/Z, e, hex digits, "
         "duration letters); the variant must decode to the same term up to literal values, and every backend must "
         "give the same outcome for both spellings (SQLite by execution on generated rows, Django/SQLAlchemy by "
-        "compiled SQL + parameters, standard/Athena text case-insensitively, round-trip by re-parsing).",
+        "compiled SQL + parameters, standard/Athena text case-insensitively, round-trip by re-parsing). Date-time literals carry Z, an offset or no zone; every zone form x T/Z case assignment is executed exhaustively.",
         "Standard and Athena SQL are not executed; leading/trailing blanks of the whole filter are out of scope.",
         "DESIGN.md §6 C19",
     ),
@@ -173,7 +173,7 @@ CHECKS = {
         "output must parse under the harness's own SQL parser with that dialect's documented precedence (predicates "
         "non-associative in SQL:1999/Trino, no bare placeholder words), every operator node of the filter must have "
         "an SQL node with the same operator and exactly the operands' leaves on each side, every leaf must occur "
-        "once with its value, and the alias must qualify every field and nothing else.",
+        "once with its value, and the alias must qualify every field and nothing else; the `- 1` that indexof expands to must stay inside the operand of the parent operator.",
         "Standard and Athena SQL are judged by vp/sqlparse.py only (no engine offline); argument order inside function templates is free.",
         "DESIGN.md §6 C09",
     ),
